@@ -99,7 +99,8 @@ CHECKS = [
         "advertised aggregates; an admitted power covers the sum of the groups' minimum powers. "
         "A bounded native explorer on the real objects runs alongside as a second, structure-independent line of detection (labelled bounded in the evidence; not part of the proof, never counted in obligations/discharged).",
         "structural bound (stated in evidence): one or two battery groups, up to two inverters per group, up to three batteries per "
-        "group, one fixed topology for PowerBoundsCalculator; all numeric data unbounded; floats as reals",
+        "group, one fixed topology for PowerBoundsCalculator; all numeric data unbounded; floats as reals - in binary64 the two sides "
+        "can differ in the last bits of an edge (recorded known finding C17-float-rounding-at-the-edge, found by the bounded explorer)",
         "contract-based deductive verification (z3, LRA), structural bound on topology", "DESIGN.md 3 (C17)"),
     chk("C14", "proof",
         "Deductive proof of the request scheduler as atomic steps: an arriving request starts a distribution only for a group with no "
